@@ -24,7 +24,8 @@ FORMS = ["# -*- coding: %s -*-", "# vim: set fileencoding=%s :", "# coding=%s"]
 # first physical line when the cookie is on line 2: characters that str.splitlines() treats as line
 # boundaries but Python (and bytes.split) do not must not hide the cookie
 FIRST = {1: "#!/usr/bin/env python", 2: "# \x0c page", 3: "# caf\x85", 4: "# fs\x1c", 5: "# ls\u2028",
-         6: "# " + "generated file - do not edit - " * 12}     # a first line of more than 300 characters
+         6: "# " + "generated file - do not edit - " * 12,     # a first line of more than 300 characters
+         7: ""}                                                # an empty first line
 NEWLINES = {"LF": "\n", "CRLF": "\r\n", "CR": "\r"}
 
 
@@ -92,7 +93,7 @@ class C16(Check):
     level = "exploration"
     rule = ("cases = (lines<=n over 9 atoms incl. latin-1/euro/CJK/NBSP characters, tab-indented block, empty line, escaped \\r\\n "
             "literal, form feed) x newline {LF,CRLF,CR} x final newline {y,n} x encoding {none, utf-8 x3 spellings, latin-1, "
-            "iso-8859-15, cp1252, koi8-r, gbk, BOM} x 3 cookie forms x cookie on line 1 / on line 2 after a shebang, a comment containing FF, NEL(0x85), FS or U+2028, or a line of more than 300 characters; one-line texts also through a file-system commands object without read(); contents encodable; "
+            "iso-8859-15, cp1252, koi8-r, gbk, BOM} x 3 cookie forms x cookie on line 1 / on line 2 after a shebang, a comment containing FF, NEL(0x85), FS or U+2028, a line of more than 300 characters, or an empty line; one-line texts also through a file-system commands object without read(); contents encodable; "
             "evaluations = per file: forced write-back, File.write replacing each editable line (+undo), Rename of one token "
             "(+undo), an edit after the newline convention was changed behind rope's back (+validate), a rewrite whose text declares another encoding (+undo), new-file write/read-back; non-trivial = evaluations on files with a non-LF newline convention, a non-UTF-8 "
             "codec, a BOM, no final newline or non-ASCII content; distinct by (file bytes, edit)")
@@ -126,7 +127,7 @@ class C16(Check):
         nl, final = case["nl"], case["final"]
         for codec in CODECS:
             for form in range(len(FORMS)):
-                for pos in (0, 1, 2, 3, 4, 5, 6):
+                for pos in (0, 1, 2, 3, 4, 5, 6, 7):
                     if "only" in case and [codec, form, pos] != case["only"]:
                         continue
                     b = build(lines, nl, final, codec, form, pos)
@@ -152,7 +153,7 @@ class C16(Check):
                 return fh.read()
 
         def fail(kind, edit, detail):
-            res["fails"].append({"kind": kind, "features": sorted(basefeats + ["edit:" + edit]), "size": len(all_lines),
+            res["fails"].append({"kind": kind, "features": sorted(basefeats + ["edit:" + edit] + (["to-nl:" + detail["to"]] if detail.get("to") in NEWLINES else [])), "size": len(all_lines),
                                  "detail": dict(detail, lines=all_lines, newline=nl, final_newline=final, codec=codec, original=repr(data)),
                                  "case": dict(case, only=[codec, form, pos])})
 
